@@ -35,7 +35,7 @@ V_T = {"real": [2.875, 24.5, 236.0, 2650.0], "cplx": [2.75 - 1.0j, 22.0 + 3.0j, 
 NS_QED = {(0, 1): 1.5 - 0.5j, (1, 1): 3.0 + 0.25j, (0, 2): 4.0 + 1.0j}
 # singlet towers: two generic ones and a momentum-conserving one (eigenvalue 0 degenerate with the photon)
 S_TOWERS = {"real": ("G", "real"), "cplx": ("G", "cplx"), "mom": ("M", "real")}
-KTOL = 2e-12  # kernel-level equality (relative to max(1,|K|))
+KTOL = 2.5e-13  # kernel-level equality (relative to max(1,|K|)); measured 2.2e-14
 ITERS_EXACT = [1, 4, 10, 40, 160]
 ITERS_CONV = [10, 40, 160]
 RATIO_MIN = 12.0
@@ -45,13 +45,13 @@ PAIRS = [[0.03, 0.0125], [0.0125, 0.03], [0.05, 0.005]]
 AEMS = [1e-4, 1e-6, 1e-8]
 E2E_ITERS = [10, 40, 160]
 MOMENTS = [2.0, 3.5, 6.0]
-E2E_CLOSE = 1e-4  # |QED(aem=1e-8, n=160) - QCD| on O(1) operator entries
+E2E_CLOSE = 5e-4  # |QED(aem=1e-8, n=160) - QCD| on O(1) operator entries; measured 3.1e-5
 E2E_VARIANTS = {
     "vfns45": dict(init=[1.65, 4], mugrid=[[100.0, 5]]),
-    "ffns3": dict(init=[1.3, 3], mugrid=[[30.0, 3]], ratios=["inf", "inf", "inf"]),
+    "ffns3": dict(init=[1.3, 3], mugrid=[[30.0, 3]], ratios=["inf", "inf", "inf"], ref=[91.2, 3]),
     "vfns56": dict(init=[10.0, 5], mugrid=[[300.0, 6]]),
     "running": dict(init=[1.65, 4], mugrid=[[100.0, 5]], em_running=True),
-    "ffns4-sv": dict(init=[3.0, 4], mugrid=[[50.0, 4]], ratios=[1.0, "inf", "inf"], sv="expanded", xif=2.0),
+    "ffns4-sv": dict(init=[3.0, 4], mugrid=[[50.0, 4]], ratios=[1.0, "inf", "inf"], ref=[91.2, 4], sv="expanded", xif=2.0),
 }
 
 
@@ -212,12 +212,14 @@ def eval_e2e(case, res, info):
 
     C = {}
     norm = 1.0
+    full = bool(case.get("full"))
+    scan_n = E2E_ITERS if full else E2E_ITERS[1:2]
     try:
         for n in E2E_ITERS:
             qcd = moment_solve(dict(base, order=[o0, 0], iterations=n, method="iterate-exact"), MOMENTS)
             ((ep, Q),) = qcd.items()
             norm = max(norm, float(np.abs(sub(Q)).max()))
-            for aem in AEMS:
+            for aem in AEMS if n in scan_n else AEMS[-1:]:
                 qed = moment_solve(dict(base, order=[o0, o1], iterations=n, method="iterate-exact", alphaem=aem), MOMENTS)
                 E = qed[ep]
                 if not np.all(np.isfinite(E)):
@@ -227,11 +229,11 @@ def eval_e2e(case, res, info):
     except Exception as e:  # noqa
         res.fail(sig0 + "/raises", f"{type(e).__name__}: {e}")
         return sig0
-    tab = {f"aem={a:g},n={n}": round(C[(a, n)][0], 12) for a in AEMS for n in E2E_ITERS}
+    tab = {f"aem={a:g},n={n}": round(C[(a, n)][0], 12) for a in AEMS for n in E2E_ITERS if (a, n) in C}
     info["table"] = tab
     where = f"order=({o0},{o1}) variant={vname} moments={MOMENTS}: |QED-QCD| on parton channels = {tab}"
     # (A) the aem-dependent part vanishes linearly: QED(aem) - QED(1e-8) at the same n
-    for n in E2E_ITERS:
+    for n in scan_n:
         d4 = float(np.abs(C[(1e-4, n)][1] - C[(1e-8, n)][1]).max())
         d6 = float(np.abs(C[(1e-6, n)][1] - C[(1e-8, n)][1]).max())
         info["max_e2e_aem_slope_dev"] = max(info.get("max_e2e_aem_slope_dev", 0.0), abs(d4 / max(d6, 1e-300) / 101.0 - 1.0) if d6 > 1e-12 else 0.0)
@@ -280,7 +282,7 @@ def cases(tier):
     if th:
         for order in QED_ORDERS:
             for v in E2E_VARIANTS:
-                out.append({"kind": "e2e", "order": order, "variant": v})
+                out.append({"kind": "e2e", "order": order, "variant": v, "full": True})
     else:
         for order, v in E2E_QUICK:
             out.append({"kind": "e2e", "order": order, "variant": v})
@@ -298,12 +300,13 @@ def run(ctx):
     # the long end-to-end cases first
     ctx.run_cases(cs, evaluate, chunksize=1)
     ne = sum(1 for c in cs if c["kind"] == "e2e")
-    ctx.extra.update(e2e_solves=ne * len(E2E_ITERS) * (1 + len(AEMS)))
+    ctx.extra.update(e2e_solves=ne * (len(E2E_ITERS) * (1 + len(AEMS)) if ctx.thorough() else len(E2E_ITERS) * 2 + len(AEMS) - 1))
     ctx.rule = (
         f"kernel level: complete product of 3 singlet towers (2 generic, 1 momentum-conserving whose zero eigenvalue is degenerate with the photon) "
         f"x 8 QED orders (1-4,1-2) x nf x 2 step shapes (geometric, uneven) x coupling pairs x iterations {ITERS_EXACT}, a_em = 0 on every step, "
         f"dense non-zero QED entries in the grids ({len(cs) - ne} cases x 3 kernels); end to end: {ne} (order, path variant) cases, each "
-        f"{len(E2E_ITERS)} x (1 QCD + {len(AEMS)} QED) moment-probe solves at N = {MOMENTS}; non-trivial = all"
+        f"iterations {E2E_ITERS} x (1 QCD + QED at alpha_em {AEMS}; quick: the alpha_em scan only at {E2E_ITERS[1]} iterations, 1e-8 elsewhere) "
+        f"moment-probe solves at N = {MOMENTS}; non-trivial = all"
     )
     ctx.assumptions += [
         "embedding by the statement: (g,ph,S,Sdelta) with only g and S mixing, photon row/column zero, Sdelta = ns+; valence = diag(V, Vdelta)",
